@@ -176,6 +176,59 @@ pub fn chaos_ops(
     (ops, nodes, desc)
 }
 
+
+/// A line composed from a header taken relative to an open group `(n, k, id)` = last accepted
+/// fragment (the next one, an opener, a repeat, a skip, another id, irregular numbering, an
+/// unfragmented sentence, numbering near 255) x a payload size (small, exactly 384, beyond 384)
+/// x a malformation (none, wrong checksum, fill out of range, empty payload, a field too many or
+/// too few, truncated). Whether such a line is "benign" is never assumed: the oracles ask the
+/// real parser.
+pub fn composed_line(rng: &mut Rng, base: (u8, u8, Option<u8>)) -> Vec<u8> {
+    // composed: a header relative to the open group x a payload size x a malformation, so
+    // that combinations nobody listed by hand occur too
+    let (bn, bk, bid) = base;
+    let other_id = Some(bid.map(|v| ((v as u32 + 1 + rng.below(8) as u32) % 10) as u8).unwrap_or(3));
+    let (n, k, id) = match rng.below(9) {
+        0 => (bn.max(bk.saturating_add(1)), bk.saturating_add(1), bid), // the next one
+        1 => (bn.max(2), 1, bid),                                       // an opener
+        2 => (bn.max(bk), bk.max(1), bid),                              // a repeat
+        3 => (bn.max(bk.saturating_add(2)), bk.saturating_add(2), bid), // a skip
+        4 => (bn.max(bk.saturating_add(1)), bk.saturating_add(1), other_id),
+        5 => (bn.max(bk.saturating_add(1)), bk.saturating_add(1), if bid.is_some() { None } else { Some(0) }),
+        6 => *rng.pick(&[(0u8, 1u8, bid), (0, 1, None), (0, 2, bid), (1, 0, bid), (1, 2, bid), (2, 0, bid), (2, 3, bid), (1, 255, None)]),
+        7 => (1, 1, bid),
+        _ => (255, *rng.pick(&[1u8, 2, 254, 255]), bid),
+    };
+    let payload: Vec<u8> = match rng.below(4) {
+        0 => (0..rng.range(385, 460)).map(|_| armor_char(rng.below(64) as u8)).collect(),
+        1 => (0..384).map(|_| armor_char(rng.below(64) as u8)).collect(),
+        _ => b"15M".to_vec(),
+    };
+    let line = make_line(b"AIVDM", n, k, id, b"A", &payload, rng.below(6) as u8);
+    let lx = lex(&line).unwrap();
+    let out = match rng.below(7) {
+        0 => {
+            let bad = (lx.value.unwrap() + 1 + rng.below(255) as u32) % 256;
+            with_checksum(&line, &lx, bad, 2, true)
+        }
+        1 => rewrite_fields(&line, &lx, &[(6, rng.pick(&[&b"6"[..], b"7", b"9", b"16", b"", b"256"]).to_vec())]),
+        2 => rewrite_fields(&line, &lx, &[(5, vec![])]),
+        3 => {
+            // one field too many / too few
+            let mut v = line.clone();
+            if rng.ratio(1, 2) {
+                v.insert(lx.fields[4].start, b',');
+            } else if let Some(pos) = v.iter().rposition(|&b| b == b',') {
+                v.remove(pos);
+            }
+            v
+        }
+        4 => line[..line.len() - rng.range(1, 3)].to_vec(),
+        _ => line.clone(),
+    };
+    out
+}
+
 /// a well-formed sentence with the given header, valid checksum, plain style
 pub fn make_line(addr: &[u8; 5], n: u8, k: u8, id: Option<u8>, chan: &[u8], payload: &[u8], fill: u8) -> Vec<u8> {
     encode_line(
